@@ -1,4 +1,98 @@
-import Model.Pipeline
+import Proofs.Pipeline
+/-!
+# C14  A pipeline failing to start part-way cleans up and returns promptly
+
+Model: `Pipe.run` (Model/Pipeline.lean) -- the parent's actions for every terminator of `Exec`
+(n = 1) and `Pipeline` (n ≥ 2), with the command `k` that cannot be started as a parameter.  The
+theorems hold for every number of commands n, every failing position k < n, every terminator, every
+stdin / stdout kind and every choice of detached commands.  "Returns promptly instead of hanging" is
+stated as what the parent controls: at every `wait` of the cleanup it holds no pipe end of the
+attempt, so a command that ends at end-of-file or on a broken pipe cannot be blocked by the parent
+(the kernel's EOF / SIGPIPE behaviour and the children are outside the model: the real runs with
+`cat` / unbounded writers and a watchdog cover them).
+-/
 namespace Pipe
-theorem c14_placeholder : stepHeld Held.empty .io = Held.empty := rfl
+
+/-- **C14.**  If command `k` cannot be started:
+ * the terminator returns the error, once, and never success;
+ * exactly the commands `0 .. k-1` were started -- no later one;
+ * every started command that is not detached is waited for exactly once (in order), detached ones never;
+ * at every one of these waits the parent holds no pipe end of the attempt, with the single exception
+   of the read end of the shared stderr pipe in `Pipeline::capture` (see `c14_capture_keeps_stderr_reader`);
+ * when the terminator has returned, the parent holds no pipe end of the attempt at all. -/
+theorem c14_partial_start_cleans_up (c0 : Cfg) (t : Term) (k : Nat) (hf : c0.failAt = some k) (hk : k < c0.n) :
+    (run c0 t).filterMap retVal = [false] ∧
+    (run c0 t).filterMap spawnIdx = List.range k ∧
+    (run c0 t).filterMap waitIdx = (List.range k).filter (fun j => !(effective c0 t).det j) ∧
+    WaitsUnder (fun h => ∀ e, h e ≠ none → capPipe (effective c0 t) t = true ∧ e = ⟨0, .r⟩) Held.empty (run c0 t) ∧
+    heldAfter Held.empty (run c0 t) = Held.empty := by
+  have hf' : (effective c0 t).failAt = some k := by rw [effective_failAt]; exact hf
+  have hk' : k < (effective c0 t).n := by rw [effective_n]; exact hk
+  obtain ⟨hw, hh⟩ := fail_held (effective c0 t) t k hf' hk'
+  have m1 : ∀ a b c, List.filterMap retVal [Act.mk a b c] = [] := fun _ _ _ => rfl
+  have m2 : ∀ a b c, List.filterMap spawnIdx [Act.mk a b c] = [] := fun _ _ _ => rfl
+  have m3 : ∀ a b c, List.filterMap waitIdx [Act.mk a b c] = [] := fun _ _ _ => rfl
+  have c1 : ∀ e, List.filterMap retVal [Act.close e] = [] := fun _ => rfl
+  have c2 : ∀ e, List.filterMap spawnIdx [Act.close e] = [] := fun _ => rfl
+  have c3 : ∀ e, List.filterMap waitIdx [Act.close e] = [] := fun _ => rfl
+  have r1 : ∀ b, List.filterMap retVal [Act.ret b] = [b] := fun _ => rfl
+  have r2 : ∀ b, List.filterMap spawnIdx [Act.ret b] = [] := fun _ => rfl
+  have r3 : ∀ b, List.filterMap waitIdx [Act.ret b] = [] := fun _ => rfl
+  refine ⟨?_, ?_, ?_, hw, hh⟩
+  · unfold run; rw [runEff_fail _ t k hf' hk']
+    simp only [List.filterMap_append, rets_stages, rets_stageFail, rets_dropVec]
+    cases capPipe (effective c0 t) t <;> simp [m1, c1, r1]
+  · unfold run; rw [runEff_fail _ t k hf' hk']
+    simp only [List.filterMap_append, spawns_stages, spawns_stageFail, spawns_dropVec]
+    cases capPipe (effective c0 t) t <;> simp [m2, c2, r2]
+  · unfold run; rw [runEff_fail _ t k hf' hk']
+    simp only [List.filterMap_append, waits_stages, waits_stageFail, waits_dropVec]
+    cases capPipe (effective c0 t) t <;> simp [m3, c3, r3, noneWaited]
+
+theorem waitsUnder_mono (P Q : Held → Prop) (hPQ : ∀ h, P h → Q h) (h : Held) (acts : List Act)
+    (hw : WaitsUnder P h acts) : WaitsUnder Q h acts := by
+  induction acts generalizing h with
+  | nil => simp [WaitsUnder]
+  | cons x xs ih =>
+    cases x <;> simp_all [WaitsUnder]
+    all_goals first | exact ih _ hw | exact ⟨hPQ _ hw.1, ih _ hw.2⟩
+
+/-- for every terminator that does not create the shared stderr pipe (all of `Exec`'s, and
+    `Pipeline::{popen, join, stream_stdout, stream_stdin}`) the parent holds nothing at the waits -/
+theorem c14_nothing_held_at_waits (c0 : Cfg) (t : Term) (k : Nat) (hf : c0.failAt = some k) (hk : k < c0.n)
+    (hc : capPipe (effective c0 t) t = false) :
+    WaitsUnder (fun h => ∀ e, h e = none) Held.empty (run c0 t) := by
+  refine waitsUnder_mono _ _ ?_ _ _ (c14_partial_start_cleans_up c0 t k hf hk).2.2.2.1
+  intro h hP e
+  cases he : h e with
+  | none => rfl
+  | some b => have := (hP e (by simp [he])).1; simp [hc] at this
+
+/-- `Pipeline::communicate` detaches every command: its cleanup never waits -/
+theorem c14_communicate_never_waits (c0 : Cfg) (k : Nat) (hf : c0.failAt = some k) (hk : k < c0.n) :
+    (run c0 .communicate).filterMap waitIdx = [] := by
+  rw [(c14_partial_start_cleans_up c0 .communicate k hf hk).2.2.1]
+  have hd : ∀ j, (effective c0 .communicate).det j = true := by
+    intro j; simp only [effective]; (repeat' split) <;> rfl
+  simp [hd]
+
+/-- the recorded finding (known_findings.json, C14 capture-start-failure-keeps-stderr-reader-while-waiting):
+    in `Pipeline::capture` the full statement fails -- the parent still holds the read end of the
+    shared stderr pipe while it waits for the commands already started -/
+theorem c14_capture_keeps_stderr_reader :
+    ∃ c0 : Cfg, c0.failAt = some 1 ∧ 1 < c0.n ∧
+      ¬ WaitsUnder (fun h => ∀ e, h e = none) Held.empty (run c0 .capture) := by
+  refine ⟨{ n := 2, det := fun _ => false, sin := .inherit, sout := .inherit, serr := .inherit, errTo := false,
+            failAt := some 1 }, rfl, by decide, ?_⟩
+  intro h
+  simp [run, runEff, effective, startAll, capPipe, att2, stageOk, stageFail, mkActs, childEnds, parentEnds, hasInPipe,
+    hasOutPipe, hasErrPipe, att0, att1, dropVec, dropPopen, popenEnds, noneWaited, WaitsUnder, stepHeld, List.range,
+    List.range.loop] at h
+  have := h ⟨0, .r⟩
+  simp at this
+
+/-! Non-vacuity (tests, labelled as tests): a concrete failing pipeline and what the model says -/
+example : (run { n := 3, det := fun _ => false, sin := .pipe, sout := .inherit, serr := .inherit, errTo := false,
+                 failAt := some 2 } .join).filterMap waitIdx = [0, 1] := by decide
+
 end Pipe
